@@ -14,25 +14,41 @@ from translate import c15_container, c15_frame, c15_pixel
 MANIFEST = dict(
     technique='Rocq proof (symbolic bit-level evaluation of the translated pixel codecs proved sound, so the round-trip laws hold '
               'for all 2^32 pixels / all stored values; induction over exponents for the mipmap table; linear arithmetic for '
-              'bounds and scale_down indexes) + ast translators + vm_compute correspondence + save/read oracle search',
-    text='Theorems in Props/C15.v, generic in the codec read from _py_vtf_readwrite.py: if the kernel-checked boolean rt_ok codec spec '
-         'holds then load(save p) is exactly the documented quantisation of p for every byte-valued pixel (identity on the used channels '
-         'for the 8-bit formats), every stored value is a byte; if sf_ok holds then save(load d) = d on every stored value (up to the '
-         'don\'t-care X bits) and save(load(save p)) = save p. For all sizes 2^a x 2^b (induction) the mipmap loop of VTF.__init__ creates '
-         'levels 0..min(a,b) with halved sizes, and save/read walk exactly the declared levels with those sizes; Frame pixel access with '
-         'all four rejections present only touches bytes inside the buffer; scale_down reads the 2x2 parent block inside the parent '
-         'buffer and the bilinear filter writes the floor of its mean. The premises (18 codecs, loop constants, comparison operators, '
-         'offset formulas, strides) are regenerated from vtf.py/_py_vtf_readwrite.py on every run and checked in the kernel; the '
-         'generated codecs are compared with the Python codecs (exhaustive 2^16 stored values, per-channel sweeps, random pixels); '
-         'whole files are saved and read back over all sizes 1x1..64x64, frames, depth, cubemaps, versions 7.2-7.5, all writable formats, '
-         'resources and sheets.',
-    note='Trusted: Coq kernel + vm_compute, translate/c15_pixel.py (cross-checked dynamically against the running codecs), the model of '
-         'byte-valued buffers (array("B")/bytearray reject values outside 0..255, proved never to happen), CPython struct for the header. '
-         'The container (header, resource directory, offsets), resources, particle sheets and the two *_BLUESCREEN formats are searched, '
-         'not modelled. Known findings (recorded, not repaired because the repair changes pinned snapshot files under tests/test_vtf): '
-         'mipmap_count is one less than the number of levels (mipmap-count-off-by-one), RGB565/BGR565 exchange R and B on a round trip '
-         '(rgb565-rb-swap); both are carved out of the theorems as *_pinned / *_refuted statements. DXT/ATI formats are not writable '
-         'from Python and outside the property. The Cython twin cannot be built here and is not verified.',
+              'bounds and scale_down indexes; induction over the chain of mipmap levels for the Frame life cycle; struct model for '
+              'every pack/unpack site of the container) + ast translators (codecs, layout, abstract interpretation of class Frame, '
+              'pack/unpack site census) + vm_compute correspondences (codecs, frame histories, container both directions) + '
+              'save/read oracle search',
+    text='Theorems in Props/C15.v, generic in the objects read from the source. Codecs (_py_vtf_readwrite.py): if the kernel-checked '
+         'boolean rt_ok codec spec holds then load(save p) is exactly the documented quantisation of p for every byte-valued pixel '
+         '(identity on the used channels for the 8-bit formats), every stored value is a byte; if sf_ok holds then save(load d) = d on '
+         'every stored value (up to the don\'t-care X bits) and save(load(save p)) = save p. For all sizes 2^a x 2^b (induction) the '
+         'mipmap loop of VTF.__init__ creates levels 0..min(a,b) with halved sizes, and save/read walk exactly the declared levels with '
+         'those sizes; Frame pixel access with all four rejections present only touches bytes inside the buffer; scale_down reads the '
+         '2x2 parent block inside the parent buffer and the bilinear filter writes the floor of its mean. Frame life cycle: the effect of '
+         'every method of class Frame on (_data, _fileinfo) is computed from vtf.py by abstract interpretation and compared in the '
+         'kernel with the tables of the model; for every chain of mipmap levels in any state (lazily read, loaded, written to, cleared) '
+         'compute_mipmaps()+save() write for each level the file\'s pixels while it still has its file source, else its pixels, else '
+         '(cleared) the scaled pixels written for the level above - so a file read lazily and saved again keeps its bytes (composed '
+         'with the codec fixpoint theorem). Container: every struct.pack/unpack site of VTF.save/VTF.read and of the particle-sheet '
+         'records is regenerated (format strings, field order on both sides, read lengths); for a site that passes site_ok every '
+         'fitting value tuple is read back unchanged under the same field names (floats as 32-bit patterns); blocks laid out behind any '
+         'prefix are found again at the running offsets (resource data blocks, thumbnail, frames in save/read order). The premises are '
+         'regenerated from vtf.py/_py_vtf_readwrite.py on every run and checked in the kernel (142 obligations); the generated codecs '
+         'are compared with the Python codecs, the generated Frame effect tables are run by Coq on symbolic pixels against histories of '
+         'operations on the implementation, implementation-saved files are decoded by the Coq container model and model-encoded files '
+         'are read by VTF.read; whole files are saved and read back over all sizes 1x1..64x64, frames, depth, cubemaps, versions 7.2-7.5, '
+         'all writable formats, resources and sheets.',
+    note='Trusted: Coq kernel + vm_compute, translate/c15_pixel.py, c15_frame.py (abstract interpreter; cross-checked dynamically by the '
+         'frame-history correspondence), c15_container.py (its tables of expression -> field name), the model of byte-valued buffers, '
+         'CPython struct as modelled by Bin/Struct.v (floats as bit patterns; NaN payloads not exercised). The whole-file composition '
+         '(directory walk + offsets + optional parts by version) is an executable Coq model tied by a two-way correspondence, not a '
+         'theorem; proved are its parts (sites, blocks at offsets, data block, texture coordinates). Sheets: record-level theorems + '
+         'correspondence; the nested-list round trip is not proved. The two *_BLUESCREEN formats and nearest-neighbour filters are '
+         'searched, not modelled. Known findings (recorded, not repaired): mipmap_count is one less than the number of levels '
+         '(mipmap-count-off-by-one), RGB565/BGR565 exchange R and B on a round trip (rgb565-rb-swap) - both carved out of the theorems '
+         'as *_pinned / *_refuted statements - and cubemaps saved with a version= override across the 7.5 sphere-map boundary '
+         '(cubemap-save-version-override-across-sphere-map-boundary; the container model has no version override). DXT/ATI formats '
+         'are not writable from Python and outside the property. The Cython twin cannot be built here and is not verified.',
 )
 
 IMPORTS = ['Coq.NArith.NArith', 'Coq.ZArith.ZArith', 'Coq.Lists.List', 'SV.Fmt.VtfPixelExpr', 'SV.Fmt.VtfLayout',
@@ -651,6 +667,41 @@ def search_files(ck: Ck) -> None:
         what2 = next((w for k, w in run_config(small) if k == key), what)
         ck.violation(key, what2, {'config': small, 'how': 'checks.c15.run_config(config) -> [(key, description)]'})
     ck.extra['file_violation_keys'] = sorted(found)
+
+
+
+def cube_override(v0: int, v1: int) -> str | None:
+    """A cubemap of version 7.v0 saved with save(version=(7, v1)); -> description of what goes wrong, or None."""
+    from srctools.vtf import VTF, ImageFormats, VTFFlags
+    rng = random.Random(v0 * 8 + v1)
+    v = VTF(4, 4, version=(7, v0), fmt=ImageFormats.RGBA8888, thumb_fmt=ImageFormats.NONE, flags=VTFFlags.ENVMAP)
+    for f in v._frames.values():
+        f.copy_from(rng.randbytes(4 * f.width * f.height))
+    buf = io.BytesIO()
+    try:
+        v.save(buf, version=(7, v1))
+        v2 = VTF.read(io.BytesIO(buf.getvalue()))
+        v2.load()
+    except Exception as e:
+        return f'cubemap 7.{v0} saved as 7.{v1}: {type(e).__name__}: {e}'
+    for k, f in v2._frames.items():
+        if k[2] < v.mipmap_count and (k not in v._frames or bytes(f._data) != bytes(v._frames[k]._data)):
+            return f'cubemap 7.{v0} saved as 7.{v1}: side {k} reads back other pixels than were saved ({len(v._frames)} frames before, {len(v2._frames)} after)'
+    return None
+
+
+def search_cube_override(ck: Ck) -> None:
+    for v0 in (2, 3, 4, 5):
+        for v1 in (2, 3, 4, 5):
+            if v0 == v1:
+                continue
+            ck.count('cubemap_version_overrides')
+            ck.seen(('cube_override', v0, v1))
+            what = cube_override(v0, v1)
+            if what is not None:
+                across = (v0 >= 5) != (v1 >= 5)
+                ck.violation('cubemap-save-version-override-across-sphere-map-boundary' if across else 'cubemap-save-version-override-differs',
+                             what, {'cube_override': [v0, v1]})
 
 
 # ================================================================================================ bounds / mipmap filters / sheets
@@ -1312,10 +1363,19 @@ def run(ck: Ck) -> None:
                'over all writable formats, flags, reflectivity, bump scale, 0-4 resources inline/offset, particle sheets v0/v1, all levels '
                'given or generated from level 0); non-trivial = more than one pixel or has resources/sheets; distinct by full configuration. '
                'bounds: all (x,y) in [-3, w+3) x [-3, h+3) for six frame shapes, non-trivial = outside the frame. '
-               'filters: five filter modes on six shapes.')
+               'filters: five filter modes on six shapes. '
+               'frame histories: a 32x16 RGBA8888 file with unrelated random levels is read lazily, 0-6 random operations '
+               '(load/clear/fill/copy_from/__setitem__/rescale_from/compute_mipmaps/__exit__ on random levels) plus 13 fixed histories, '
+               'then save; distinct by the operation list, non-trivial = at least one operation. '
+               'container: small sizes, versions 7.2-7.5, cubemaps, depth, frames, 0-4 resources, sheets; distinct by configuration. '
+               'cubemap save(version=) overrides: all 12 ordered pairs of versions.')
     ck.trusted.append('Fmt/VtfPixelExpr.v specification tuples spec_* / canon_* (hand-written from the docstrings; their meaning as functions '
                       'is restated by c15_spec_* theorems) and checks/c15.py ref_quantise (independent Python restatement used by the oracle)')
+    ck.trusted.append('translate/c15_frame.py tables D_COQ/S_COQ and READERS, translate/c15_container.py tables SAVE_FIELD/READ_FIELD/READ_ATTR '
+                      '(which source expression is which field); checks/c15.py spec_history (independent restatement of what save must write)')
     ck.assumptions += [
+        'a frame is not passed to its own copy_from/rescale_from (no aliasing of self and the parameter frame)',
+        'the container theorems are per site / per block; their composition into the whole file is tied by correspondence only',
         'pixel buffers hold bytes (array("B") / bytearray): every theorem about codecs is for components in 0..255',
         'width and height are powers of two (VTF.__init__ rejects everything else)',
         'Python int arithmetic is unbounded: the codec expressions are evaluated over N without wrap-around',
@@ -1372,6 +1432,7 @@ def run(ck: Ck) -> None:
     search_bounds(ck)
     search_filters(ck)
     search_files(ck)
+    search_cube_override(ck)
     # which broken obligations do the concrete violations explain?
     keys = {v['key'] for v in ck.violations}
     for k in keys:
@@ -1440,6 +1501,9 @@ def replay(data: dict) -> int:
         ld = impl_load(f, st)
         print(f'{f.name}: pixel {p} stored {st[0]} loaded {ld[0]} stored again {impl_save(f, ld)[0]}; documented quantisation '
               f'{tuple(ref_quantise(f.name, bytes(p)))}')
+        return 0
+    if 'cube_override' in r:
+        print(cube_override(*r['cube_override']))
         return 0
     if 'history' in r:
         base, n, levels = history_base(r['seed'])
